@@ -189,3 +189,60 @@ func runNonceSchedules(c *vf.Ctx, w *world) bool {
 	schedx.Explore(c, scs)
 	return isSched
 }
+
+// longRetries: "retries are limited as documented" for limits that a bounded number of
+// non-default answers never reaches: the CA answers EVERY request to the order endpoint with a
+// retriable error; RetryBackoff stops at n > limit for limits on both sides of 30 (the bound the
+// package's default backoff mentions); the client must have sent exactly limit+1 signed requests,
+// have called RetryBackoff with n = 1, 2, ..., limit+1 and return an error.
+func longRetries(c *vf.Ctx, w *world) {
+	answers := []acmesrv.Answer{acmesrv.Unavail503, acmesrv.BadNonceFresh, acmesrv.Rate429RA0, acmesrv.ISE500}
+	limits := []int{0, 1, 2, 29, 30, 31, 32, 35, 64, 100}
+	c.ParallelFor(len(answers)*len(limits), func(i int) {
+		ans, limit := answers[i/len(limits)], limits[i%len(limits)]
+		srv := acmesrv.New("https://ca.test")
+		srv.Horizon = 1000
+		srv.Accounts[srv.AcctURL()] = &w.key.PublicKey
+		srv.Decide = func(x *acmesrv.Exchange) acmesrv.Answer {
+			if x.Method == "POST" && x.Endpoint == "order" {
+				return ans
+			}
+			return acmesrv.Default
+		}
+		cl := &acme.Client{Key: w.key, HTTPClient: &http.Client{Transport: srv}, DirectoryURL: srv.DirURL(), KID: acme.KeyID(srv.AcctURL())}
+		var ns []int
+		cl.RetryBackoff = func(n int, _ *http.Request, _ *http.Response) time.Duration {
+			ns = append(ns, n)
+			if n > limit || len(ns) > 500 {
+				return 0
+			}
+			return time.Nanosecond
+		}
+		srv.BeginCall(1, []string{"pending"}, nil)
+		_, err := cl.GetOrder(context.Background(), srv.OrderURL())
+		posts := 0
+		for _, x := range srv.Log {
+			if x.Method == "POST" && x.Endpoint == "order" {
+				posts++
+			}
+		}
+		c.Eval(1)
+		c.Nontrivial(fmt.Sprintf("longretry/%d/%d", ans, limit))
+		det := map[string]any{"answer": fmt.Sprint(ans), "limit": limit, "signed_requests": posts, "backoff_calls": len(ns), "err": fmt.Sprint(err)}
+		okSeq := len(ns) == limit+1
+		for k, n := range ns {
+			okSeq = okSeq && n == k+1
+		}
+		switch {
+		case err == nil:
+			c.Violation("a call succeeds although the CA answered every request with an error", det)
+		case posts != limit+1 || !okSeq:
+			if len(ns) > 12 {
+				det["backoff_n_tail"] = ns[len(ns)-6:]
+			} else {
+				det["backoff_n"] = ns
+			}
+			c.Violation("retries are not limited as RetryBackoff says: with a stop at n > limit the client must send exactly limit+1 requests and pass n = 1..limit+1", det)
+		}
+	})
+}
